@@ -20,7 +20,7 @@ RULE = ("harness-generated template datasets (rank 1-3, extents 1-6, coordinate 
         "grid_mapping) x variables of f8/f4/i8/i4/i2 with and without _FillValue and random masks x every DataType x MissingValue "
         "combination; write cases with 1-4 results (float64/float32/int64/int32, nomask / all-false / random masks) written together; "
         "distinct by (case kind, rank, stored type, DataType, MissingValue class, has-fill, n results, mask classes)")
-REQUIRED_COUNTERS = ["reads_compared", "type_check_cases", "writes_read_back", "template_copies_compared", "union_mask_checks", "writes_over_an_older_dataset", "other_type_name_spellings", "written_results_made_by_commands"]
+REQUIRED_COUNTERS = ["tool_runs_through_a_linked_command_file", "large_grids_written", "reads_compared", "type_check_cases", "writes_read_back", "template_copies_compared", "union_mask_checks", "writes_over_an_older_dataset", "other_type_name_spellings", "written_results_made_by_commands"]
 ASSUMPTIONS = ["don't-care: real data equal to the fill value, result names clashing with dimension names, compression settings, plain ndarray results",
                "Fuzzy: data within [-1,1] must come back unchanged, data beyond +-1.5 must be rejected, whatever is returned lies in [-1,1]; the width "
                "of the tolerance band in between is not documented and not judged", "the parameter is called MissingValue in the code (MissingVal in the docs)"]
@@ -47,6 +47,14 @@ def cases(ctx):
                "marking": rng.choice(["_FillValue", "_FillValue", "missing_value", "valid_range", "valid_min_max"]), "spelling": rng.random() < 0.12}
     for i in range(ctx.n(400, 20000)):
         yield {"kind": "write", "shape": gen_shape(rng), "n": rng.randint(1, 4), "crs": rng.random() < 0.4, "rseed": rng.randrange(10 ** 9)}
+    # a model run through the command-line tool by way of a symbolic link to its command file: the data files named in it are
+    # those next to the link
+    for i in range(ctx.n(8, 300)):
+        yield {"kind": "toollink", "rseed": rng.randrange(10 ** 9)}
+    # grids of more than a million cells, written and read back (block-wise writers / readers)
+    for i in range(ctx.n(2, 16)):
+        j = i * ctx.nshards + ctx.shard
+        yield {"kind": "bigwrite", "shape": [[1500, 1000], [1025, 1100], [3, 700, 501], [2049, 513], [1200000]][j % 5], "rseed": rng.randrange(10 ** 9), "integer": j % 3 == 1}
 
 
 def make_template(d, shape, rng, crs=False, packed=False):
@@ -107,7 +115,112 @@ def make_template(d, shape, rng, crs=False, packed=False):
     return path, info
 
 
+def run_bigwrite(ctx, case):
+    """A grid of more than 2^20 cells with scattered missing cells and a MissingValue-marked band: what EEMSWrite stores is
+    what netCDF4 reads back, and what EEMSRead returns for the written file is the field again - cell for cell."""
+    from netCDF4 import Dataset
+    shape = tuple(case["shape"])
+    rs = numpy.random.RandomState(case["rseed"] % (2 ** 31))
+    d = ctx.scratch()
+    tpath = os.path.join(d, "template.nc")
+    with Dataset(tpath, "w") as ds:
+        dims = []
+        for i, n in enumerate(shape):
+            ds.createDimension("d%d" % i, n)
+            v = ds.createVariable("d%d" % i, "f8", ("d%d" % i,))
+            v[:] = numpy.arange(n) * 1.0
+            dims.append("d%d" % i)
+        tv = ds.createVariable("tmpl", "f4", tuple(dims))
+    n = int(numpy.prod(shape))
+    if case["integer"]:
+        data = rs.randint(-30000, 30000, size=shape).astype("int64")
+    else:
+        data = numpy.round(rs.uniform(-1000, 1000, size=shape) * 8) / 8.0
+    mask = rs.uniform(size=shape) < 0.05
+    flat = mask.reshape(-1)
+    flat[n - 3000:n - 2000] = True          # a band of missing cells near the end, valid cells after it
+    prog = arr.new_program(arr.NC_LIBS, working_dir=d)
+    arr.standin(prog, "Big", numpy.ma.array(data, mask=mask), fuzzy=False)
+    ctx.count("large_grids_written")
+    ctx.feature(("bigwrite", len(shape), case["integer"], n % (2 ** 20) == 0))
+    w = arr.invoke(prog, "EEMSWrite", "W", {"OutFileName": "big.nc", "OutFieldNames": ["Big"], "DimensionFileName": "template.nc", "DimensionFieldName": "tmpl"})
+    if not w.ok:
+        ctx.fail("roundtrip:large-grid:write-raises-%s" % (w.inner() or w.err), {"shape": list(shape), "error": str(w.exc)[:200]})
+        return
+    with Dataset(os.path.join(d, "big.nc")) as ds:
+        if "Big" not in ds.variables or tuple(ds.variables["Big"].shape) != shape:
+            ctx.fail("roundtrip:large-grid:variable-shape", {"want": list(shape), "got": list(ds.variables["Big"].shape) if "Big" in ds.variables else None})
+            return
+        stored = ds.variables["Big"][:]
+    sm = numpy.ma.getmaskarray(stored)
+    ctx.count("union_mask_checks")
+    if not numpy.array_equal(sm, mask):
+        k = int(numpy.nonzero(sm.reshape(-1) != mask.reshape(-1))[0][0])
+        ctx.fail("roundtrip:large-grid:%s" % ("cell-lost" if sm.reshape(-1)[k] else "missing-cell-stored-as-data"), {"flat_cell": k, "cells_differing": int((sm != mask).sum()), "shape": list(shape)})
+        return
+    if not numpy.array_equal(numpy.ma.getdata(stored)[~mask], data[~mask]):
+        ctx.fail("roundtrip:large-grid:value", {"shape": list(shape)})
+        return
+    back = arr.invoke(arr.new_program(arr.NC_LIBS, working_dir=d), "EEMSRead", "B", {"InFileName": "big.nc", "InFieldName": "Big", "DataType": "Integer" if case["integer"] else "Float", "MissingValue": 12345678})
+    ctx.count("writes_read_back")
+    if not back.ok:
+        ctx.fail("roundtrip:large-grid:read-raises-%s" % (back.inner() or back.err), {"shape": list(shape)})
+        return
+    bm = numpy.ma.getmaskarray(back.value)
+    if back.value.shape != shape or not numpy.array_equal(bm, mask) or not numpy.array_equal(numpy.ma.getdata(back.value)[~mask], data[~mask]):
+        diff = int((bm != mask).sum()) if back.value.shape == shape else None
+        ctx.fail("roundtrip:large-grid:read-back-differs", {"shape": list(shape), "cells_with_other_mask": diff})
+
+
+def run_toollink(ctx, case):
+    from netCDF4 import Dataset
+    from click.testing import CliRunner
+    from mpilot.cli.mpilot import main
+    rng = random.Random(case["rseed"])
+    d = ctx.scratch()
+    proj, store = os.path.join(d, "project"), os.path.join(d, "store")
+    os.makedirs(proj)
+    os.makedirs(store)
+    n = rng.randint(3, 9)
+    vals = {}
+    for where, base in ((proj, 100.0), (store, 500.0)):
+        with Dataset(os.path.join(where, "in.nc"), "w") as ds:
+            ds.createDimension("x", n)
+            xv = ds.createVariable("x", "f8", ("x",))
+            xv[:] = numpy.arange(n) * 1.0
+            v = ds.createVariable("var", "f8", ("x",))
+            vals[where] = base + numpy.arange(n) * rng.choice([1.0, 0.5, 2.25])
+            v[:] = vals[where]
+    text = 'A = EEMSRead(InFileName = "in.nc", InFieldName = var)\nB = Sum(InFieldNames = [A, A])\nOut = EEMSWrite(OutFileName = "out.nc", OutFieldNames = [B], DimensionFileName = "in.nc", DimensionFieldName = var)\n'
+    with open(os.path.join(store, "model.mpt"), "w") as f:
+        f.write(text)
+    direct = rng.random() < 0.3
+    if direct:
+        with open(os.path.join(proj, "model.mpt"), "w") as f:
+            f.write(text)
+    else:
+        os.symlink(os.path.join(store, "model.mpt"), os.path.join(proj, "model.mpt"))
+    try:
+        res = CliRunner(mix_stderr=False).invoke(main, ["eems-netcdf", os.path.join(proj, "model.mpt")])
+    except TypeError:
+        res = CliRunner().invoke(main, ["eems-netcdf", os.path.join(proj, "model.mpt")])
+    ctx.count("tool_runs_through_a_linked_command_file")
+    ctx.feature(("toollink", direct, n))
+    out = os.path.join(proj, "out.nc")
+    if res.exit_code != 0 or not os.path.exists(out):
+        ctx.fail("tool:model-next-to-its-data-fails%s" % ("" if direct else ":command-file-is-a-symbolic-link"), {"exit": res.exit_code, "exception": repr(res.exception)[:200], "written_elsewhere": os.path.exists(os.path.join(store, "out.nc"))})
+        return
+    with Dataset(out) as ds:
+        got = numpy.array(ds.variables["B"][:])
+    if not numpy.array_equal(got, 2 * vals[proj]):
+        ctx.fail("tool:reads-the-data-next-to-the-link-target", {"got": got.tolist()[:4], "want": (2 * vals[proj]).tolist()[:4]})
+
+
 def run_case(ctx, case):
+    if case["kind"] == "toollink":
+        return run_toollink(ctx, case)
+    if case["kind"] == "bigwrite":
+        return run_bigwrite(ctx, case)
     return run_read(ctx, case) if case["kind"] == "read" else run_write(ctx, case)
 
 
